@@ -120,6 +120,8 @@ def _run_exh(acc, job):
 @st.composite
 def _uniform_case(draw):
     P = draw(S.pdag(6, 8, max_undirected=9, weights=(4, 2, 2)))
+    if draw(st.integers(0, 2)) == 0:
+        P = draw(S.embedded(draw(S.pdag(3, 6, max_undirected=8, weights=(2, 3, 3)))))
     return {"sub": "pdag_hyp", "P": P, "dtype": draw(st.sampled_from(["int", "float"])), "alldags": draw(st.integers(0, 5)) == 0}
 
 
